@@ -36,6 +36,8 @@ SKS = [
     dict(pre=[], effs=[6], second_action=[13, 12], pre2=[7], goal=[0]),                                      # forall effects
     dict(pre=[8], effs=[15], second_action=[10, 12], pre2=[], goal=[0]),                                     # universal condition reads every p
     dict(pre=[], effs=[9, 12], second_action=[5], pre2=[], effcond=0, effcond2=4, n_bounds="both", goal=[5]),  # conditional numeric effects
+    dict(pre=[], effs=[10], second_action=[20], pre2=[], goal=[0]),      # forall effect whose CONDITION mentions the bound variable: reads every p(y)
+    dict(pre=[], effs=[15], second_action=[20, 10], pre2=[], goal=[0]),
 ]
 
 
